@@ -160,6 +160,10 @@ def run(ck):
     for nm in NAMES:
         for sub in ('new', 'cur'):
             scens.append(dict(name=nm, srcsub=sub, action='move_flag' if sub == 'new' else 'flag_move', mdname='dst', prepop=1, extra='', colon_src=False))
+    # long runs of colliding candidate names: the generator keeps trying until a free name is found
+    for act, sub, npre in (('move', 'new', 130), ('flag_cur', 'new', 200), ('move', 'cur', 300), ('flags_move', 'cur', 129), ('move_flag', 'new', 128)):
+        scens.append(dict(name=rng.choice(NAMES[:6]), srcsub=sub, action=act, mdname='dst', prepop=npre, extra='T' if 'flags' in act else '',
+                          colon_src=False, xdev=False))
     # source and destination on different file systems (rename fails with EXDEV: copy, restore the mtime, unlink)
     for act in acts:
         for sub in ('new', 'cur'):
@@ -176,7 +180,7 @@ def run(ck):
         'distinct_nontrivial': len(stats['nontrivial']),
         'rule': 'one message per run; file name from 17 suffix shapes (absent, empty, sorted/unsorted/duplicate letters, all 52 letters, invalid: wrong version, '
                 'missing comma, digit, dash, second suffix), both subdirectories, action from {move, flag new, flag !new, flags, move+flag, flag+move, flags+move}, '
-                'destination maildir names with space, %, UTF-8 and ":" , 0-5 pre-existing candidate names; a quarter of the runs and one per action and subdirectory with the rename failing with EXDEV (copy path); clock/pid/host/random pinned; '
+                'destination maildir names with space, %, UTF-8 and ":" , 0-5 pre-existing candidate names and five runs with 128-300 of them in a row; a quarter of the runs and one per action and subdirectory with the rename failing with EXDEV (copy path); clock/pid/host/random pinned; '
                 'non-trivial = valid flags (the message must be renamed); distinct = distinct (name, subdir, action, prepopulation, letters)',
         'samples': scens[:4],
         'traces_validated_against_impl': stats['evals'],
